@@ -76,6 +76,13 @@ func init() {
 			for _, op := range allOps {
 				configs = append(configs, "override:"+op.String(), "remove:"+op.String())
 			}
+			if strings.Contains(unit, "|full|1|") && strings.HasSuffix(unit, "|leafun") {
+				for name := range apiTrees() {
+					for _, cfg := range configs {
+						w.Do(core.Case{Kind: "fold", In: core.BStr(name), In2: core.BStr(cfg), Aux: core.BStr("api:" + name)})
+					}
+				}
+			}
 			deep := strings.Contains(unit, "|full|2|")
 			qast.EnumTreeUnit(eu, leaves, sub, func(t *qast.Node) {
 				txt := qast.Text(t, nil)
@@ -273,7 +280,25 @@ func (m *foldModel) node(e *expr.Expression) childVal {
 	return childVal{}
 }
 
+// apiTrees: expressions only the constructors (or JSON) can produce: lists holding patterns, a
+// list under NOT, nested lists of one element.
+func apiTrees() map[string]*expr.Expression {
+	lst := func(items ...*expr.Expression) *expr.Expression { return expr.LIST(items) }
+	return map[string]*expr.Expression{
+		"in-wild-first":  expr.IN("a", lst(expr.WILD("x*"), expr.Lit("y"))),
+		"in-wild-middle": expr.IN("a", lst(expr.Lit("x"), expr.REGEXP("/r/"), expr.Lit("z"))),
+		"in-wild-last":   expr.IN("a", lst(expr.Lit("x"), expr.WILD("y?"))),
+		"not-in":         expr.NOT(expr.IN("a", lst(expr.Lit(1), expr.Lit(2), expr.Lit(3)))),
+		"in-one":         expr.AND(expr.IN("a", lst(expr.Lit("x"))), expr.Eq("b", expr.WILD("w*"))),
+		"range-wild":     expr.OR(expr.Rang("a", expr.WILD("*"), expr.Lit(5), true), expr.Rang("b", expr.Lit("x"), expr.WILD("*"), false)),
+	}
+}
+
 func c15Tree(c core.Case) (*expr.Expression, bool) {
+	if strings.HasPrefix(string(c.Aux), "api:") {
+		e, ok := apiTrees()[string(c.Aux)[4:]]
+		return e, ok
+	}
 	if string(c.Aux) == "build" {
 		t, err := qast.Decode(c.Tree)
 		if err != nil {
@@ -483,6 +508,9 @@ func dumpCalls(cs []*traceCall) string {
 
 func c15Shrink(c core.Case) []core.Case {
 	var out []core.Case
+	if strings.HasPrefix(string(c.Aux), "api:") {
+		return nil
+	}
 	if string(c.Aux) == "build" && c.Tree != "" {
 		t, err := qast.Decode(c.Tree)
 		if err != nil {
